@@ -412,8 +412,8 @@ def check_ack_processing(ctx, rule="T-ACKEST"):
             for da in (-1, 0, 1, win, win + 1):
                 ack = (una + da) % M32
                 for dw1 in (-1, 0, 1):
+                  for seqv in (5000, 0, M32 - 1):            # SEG.SEQ in the middle of the space and on either side of the wrap
                     for dw2 in (-1, 0, 1):
-                        seqv = 5000
                         env = {snd("una"): una, snd("nxt"): nxt, snd("wl1"): (seqv + dw1) % M32, snd("wl2"): (ack + dw2) % M32, snd("wnd"): 111,
                                seg("ack"): ack, seg("seq"): seqv, seg("wnd"): 222}
                         try:
